@@ -112,8 +112,9 @@ type Op struct {
 
 // Mut is a call made from inside a Range visitor at its At-th invocation (0-based).
 type Mut struct {
-	At int `json:"at"`
-	Op Op  `json:"op"`
+	At  int  `json:"at"`
+	Op  Op   `json:"op"`
+	Cur bool `json:"cur,omitempty"` // the call targets the key being visited (resolved at run time)
 }
 
 type KV struct {
@@ -175,7 +176,11 @@ func (o Op) String() string {
 			x = fmt.Sprintf("stop@%d", o.N)
 		}
 		for _, mu := range o.Muts {
-			x += fmt.Sprintf(" @%d:%s", mu.At, mu.Op.String())
+			c := ""
+			if mu.Cur {
+				c = "[key:=visited]"
+			}
+			x += fmt.Sprintf(" @%d:%s%s", mu.At, mu.Op.String(), c)
 		}
 		return fmt.Sprintf("%s(%s)", o.K, x)
 	case CSetDefaultExp:
